@@ -28,6 +28,9 @@ type IfaceCase struct {
 	// Inflight, when set, runs rounds of (link up, PDUs delivered to the socket, link loss without
 	// waiting for the receiver) in front of Seq: device events that race with PDUs being processed.
 	Inflight *Inflight `json:"inflight,omitempty"`
+	// Faults injects transient transmission failures into the ethernet handles of eth0 (Gen 0 = every
+	// handle): the socket stays open, single sends fail. Hellos have to go on afterwards.
+	Faults []SendFault `json:"faults,omitempty"`
 }
 
 // Inflight describes the racing part of a scenario.
@@ -83,6 +86,9 @@ func (c IfaceCase) String() string {
 	g := ""
 	if c.Ghost {
 		g = "+ghost"
+	}
+	for _, f := range c.Faults {
+		g += fmt.Sprintf("+txfail(h%d:%d..%d)", f.Gen, f.From, f.From+f.Count-1)
 	}
 	return fmt.Sprintf("%s/%s/adv%d%s", k, b.String(), c.Adv, g)
 }
@@ -172,6 +178,28 @@ func RunIface(c IfaceCase, out *Outcome, emit func(Sent)) {
 	}
 	h.AllSent = emit
 	out.Count("scenarios", 1)
+	if len(c.Faults) > 0 {
+		var fs []SendFault
+		for _, f := range c.Faults {
+			if f.Gen == 0 {
+				// every handle the factory may create in this scenario
+				for g := 1; g <= len(c.Seq)+1; g++ {
+					fs = append(fs, SendFault{Gen: g, From: f.From, Count: f.Count})
+				}
+			} else {
+				fs = append(fs, f)
+			}
+		}
+		h.SendFaults = map[string][]SendFault{"eth0": fs}
+		out.Count("scenarios_with_send_faults", 1)
+		defer func() {
+			_, all := h.Eth("eth0")
+			for _, e := range all {
+				n, _ := e.TxFaults()
+				out.Count("transient_send_errors_injected", n)
+			}
+		}()
+	}
 	poisoned := false // a device event never returned: the server must not be touched any more
 	unsettled := func() {
 		if h.Unsettled > 0 && out.Inconclusive == "" && !poisoned {
@@ -265,6 +293,23 @@ func RunIface(c IfaceCase, out *Outcome, emit func(Sent)) {
 		out.Count("final_up_after_loss_"+loss, 1)
 	}
 	cur, all := h.Eth("eth0")
+	faulted := false
+	if cur != nil && len(c.Faults) > 0 {
+		// transient means finite: a running hello sender attempts one transmission per hello interval, so
+		// after one interval per transmission up to the last pending failure every injected failure has
+		// happened; the hellos of the following two intervals are the ones judged
+		for n := cur.TxFaultHorizon(); n > 0 && cur.TxFaultHorizon() > 0; n-- {
+			step(helloIv)
+		}
+		failed, left := cur.TxFaults()
+		faulted = failed > 0
+		if faulted {
+			out.Count("final_up_after_transient_send_error", 1)
+		}
+		if left == 0 && faulted {
+			out.Count("final_up_send_errors_all_consumed", 1)
+		}
+	}
 	h.Take()
 	step(2 * helloIv)
 	hellos := 0
@@ -313,7 +358,12 @@ func RunIface(c IfaceCase, out *Outcome, emit func(Sent)) {
 		if bad != "" {
 			why += "; a hello was sent but is malformed: " + bad
 		}
-		out.Violate(clause("no-hello-after-up"), feat("reup", reup), "scenario %s: link is up but no hello was sent on the current ethernet handle during %d s (2 hello intervals) of mock time; %s", c, 2*helloIv, why)
+		if faulted {
+			failed, left := cur.TxFaults()
+			out.Violate(clause("no-hello-after-transient-send-error"), feat("reup", reup), "scenario %s: link is up and the socket is open; %d transmission(s) on the current ethernet handle failed transiently (%d injected failure(s) never attempted), afterwards no hello was sent during %d s (2 hello intervals) of mock time: the hello sender gave up although the interface is running; %s", c, failed, left, 2*helloIv, why)
+		} else {
+			out.Violate(clause("no-hello-after-up"), feat("reup", reup), "scenario %s: link is up but no hello was sent on the current ethernet handle during %d s (2 hello intervals) of mock time; %s", c, 2*helloIv, why)
+		}
 	}
 	if cur == nil {
 		out.Violate(clause("no-adjacency-after-up"), feat("reup", reup, "rx", "no-handle"), "scenario %s: the server holds no ethernet handle for eth0 after link up", c)
@@ -578,6 +628,44 @@ func GenInflightCase(rng *rand.Rand, rounds int) IfaceCase {
 		}
 	}
 	return IfaceCase{Adv: 0, Inflight: in, Seq: []bool{true}}
+}
+
+// IfaceFaultCases enumerates every up/down sequence of length 1..maxLen that ends with link up on an active
+// interface x advances x plans of transient transmission failures: the first, the first two, the second,
+// the third to fifth transmission on every handle, and the first transmission on the handle of the last link
+// up only (its number = the number of down->up changes).
+func IfaceFaultCases(maxLen int, advs []int) []IfaceCase {
+	var out []IfaceCase
+	for _, base := range IfaceCases(maxLen, advs) {
+		if base.Passive || !base.Seq[len(base.Seq)-1] {
+			continue
+		}
+		rises := 0
+		for i, u := range base.Seq {
+			if u && (i == 0 || !base.Seq[i-1]) {
+				rises++
+			}
+		}
+		for _, f := range []SendFault{{0, 0, 1}, {0, 0, 2}, {0, 1, 1}, {0, 2, 3}, {rises, 0, 1}} {
+			c := base
+			c.Faults = []SendFault{f}
+			out = append(out, c)
+		}
+	}
+	return out
+}
+
+// GenIfaceFaultCase draws a longer scenario with random failure plans.
+func GenIfaceFaultCase(rng *rand.Rand) IfaceCase {
+	c := IfaceCase{Adv: []int{0, 3, 6, 11}[rng.IntN(4)]}
+	for n := 2 + rng.IntN(6); n > 0; n-- {
+		c.Seq = append(c.Seq, rng.IntN(2) == 0)
+	}
+	c.Seq = append(c.Seq, true)
+	for n := 1 + rng.IntN(3); n > 0; n-- {
+		c.Faults = append(c.Faults, SendFault{Gen: rng.IntN(4), From: rng.IntN(6), Count: 1 + rng.IntN(3)})
+	}
+	return c
 }
 
 func genOf(e *Eth) int {
